@@ -115,28 +115,33 @@ public:
     }
 
     IndexType getIndexFromBoxPos(const std::array<long int,Dim>& inBoxPos) const{
-        IndexType index = 0x0LL;
-        IndexType mask = 0x1LL;
+        // The bits are interleaved on unsigned values, one bit per dimension and per round:
+        // shifting the (signed) coordinates left, as done previously, overflows for deep trees
+        // although the resulting index fits in IndexType.
+        using UIndexType = unsigned long int;
+        UIndexType index = 0;
 
         bool shouldContinue = false;
 
-        std::array<IndexType,Dim> mcoord;
+        std::array<UIndexType,Dim> coords;
         for(long int idxDim = 0 ; idxDim < Dim ; ++idxDim){
-            mcoord[idxDim] = (inBoxPos[idxDim] << (Dim - idxDim - 1));
-            shouldContinue |= ((mask << (Dim - idxDim - 1)) <= mcoord[idxDim]);
+            coords[idxDim] = static_cast<UIndexType>(inBoxPos[idxDim]);
+            shouldContinue |= (coords[idxDim] != 0);
         }
 
-        while(shouldContinue){
+        long int idxBit = 0;
+
+        while(shouldContinue && idxBit + Dim <= 64){
             shouldContinue = false;
             for(long int idxDim = Dim-1 ; idxDim >= 0 ; --idxDim){
-                index |= (mcoord[idxDim] & mask);
-                mask <<= 1;
-                mcoord[idxDim] <<= (Dim-1);
-                shouldContinue |= ((mask << (Dim - idxDim - 1)) <= mcoord[idxDim]);
+                index |= ((coords[idxDim] & UIndexType(1)) << idxBit);
+                idxBit += 1;
+                coords[idxDim] >>= 1;
+                shouldContinue |= (coords[idxDim] != 0);
             }
         }
 
-        return index;
+        return static_cast<IndexType>(index);
     }
 
     IndexType getChildIndexFromParent(const IndexType inParentIndex, const long int inChild) const{
